@@ -14,7 +14,9 @@ import (
 	"fmt"
 	"go/ast"
 	"go/token"
+	"go/types"
 	"regexp"
+	"sort"
 	"strconv"
 	"strings"
 )
@@ -346,35 +348,444 @@ func topN(p *pkgInfo, file, recv, fn, varName string) (int64, bool) {
 	return v, n == 1
 }
 
+// ---------------------------------------------------------------------------------------------------
+// semantic reading (goeval.go)
+// ---------------------------------------------------------------------------------------------------
+
+type reportEval struct {
+	in  *Interp
+	b   *strings.Builder // ReportConst.v
+	tb  *strings.Builder // ReportTables.v
+	svc *pkgInfo
+	an  *pkgInfo
+	dom *pkgInfo
+}
+
+// keptValues runs a filter function on items built from vals and returns the values of the items it keeps.
+func (r *reportEval) keptValues(p *pkgInfo, fd *ast.FuncDecl, recv string, items []Value, req Value, valueOf func(Value) Value) ([]Value, error) {
+	v, err := r.in.call1(p, fd, mkStruct(recv), mkSlice(items...), req)
+	if err != nil {
+		return nil, err
+	}
+	var out []Value
+	if s, _ := v.(*Slice); s != nil {
+		for _, e := range s.E {
+			out = append(out, valueOf(e))
+		}
+	}
+	return out, nil
+}
+
+func zList(vs []Value) string {
+	var items []string
+	for _, v := range vs {
+		n, _ := v.(int64)
+		items = append(items, coqZint(n))
+	}
+	return "[" + strings.Join(items, "; ") + "]"
+}
+
+// emitBucketsEval: the distribution bucket function read by evaluation: labels ordered by their leading number,
+// the function as an ascending chain of `x <= bound` tests over the segments found by scanning x.
+func (r *reportEval) emitBucketsEval(p *pkgInfo, file, recv, fn, name string) []string {
+	b := r.b
+	fd := findFunc(p, file, recv, fn)
+	if fd == nil {
+		fail("%s/%s:%s.%s: function not found", p.dir, file, recv, fn)
+		return nil
+	}
+	var xs []int64
+	for x := int64(-3); x <= 130; x++ {
+		xs = append(xs, x)
+	}
+	xs = append(xs, 1000, 1000000)
+	var vals []string
+	for _, x := range xs {
+		l, err := asString(r.in.call1(p, fd, mkStruct(recv), x))
+		if err != nil {
+			fail("%s: cannot be evaluated: %v", fn, err)
+			return nil
+		}
+		vals = append(vals, l)
+	}
+	segs := stepSegments(xs, vals)
+	// labels: "n", "a-b", "n+"; ordered by the leading number
+	type lab struct {
+		text string
+		key  int64
+	}
+	var labs []lab
+	seen := map[string]bool{}
+	for _, sg := range segs {
+		if seen[sg.val] {
+			continue
+		}
+		seen[sg.val] = true
+		m := regexp.MustCompile(`^(\d+)`).FindString(sg.val)
+		if m == "" {
+			fail("%s: label %q is neither n, a-b nor n+", fn, sg.val)
+			return nil
+		}
+		k, _ := strconv.ParseInt(m, 10, 64)
+		labs = append(labs, lab{sg.val, k})
+	}
+	sort.SliceStable(labs, func(i, j int) bool { return labs[i].key < labs[j].key })
+	index := map[string]int{}
+	var labels []string
+	for i, l := range labs {
+		index[l.text] = i
+		labels = append(labels, l.text)
+	}
+	var body strings.Builder
+	for i, sg := range segs {
+		if i == len(segs)-1 {
+			fmt.Fprintf(&body, "%d%%nat", index[sg.val])
+		} else {
+			fmt.Fprintf(&body, "if Z.leb x (%d) then %d%%nat else ", segs[i+1].from-1, index[sg.val])
+		}
+	}
+	fmt.Fprintf(b, "(* %s/%s: %s — labels %s *)\n", p.dir, file, fn, strings.Join(labels, " | "))
+	fmt.Fprintf(b, "Definition report_%s_bucket (x : Z) : nat := %s.\n", name, body.String())
+	fmt.Fprintf(b, "Definition report_%s_nbuckets : nat := %d%%nat.\n", name, len(labels))
+	type rg struct {
+		lo  int64
+		hi  int64
+		inf bool
+	}
+	rs := make([]rg, len(labels))
+	var maxHi int64 = -1 << 62
+	for i, l := range labels {
+		if m := reRange.FindStringSubmatch(l); m != nil {
+			lo, _ := strconv.ParseInt(m[1], 10, 64)
+			hi, _ := strconv.ParseInt(m[2], 10, 64)
+			rs[i] = rg{lo, hi, false}
+			if hi > maxHi {
+				maxHi = hi
+			}
+		} else if m := reOne.FindStringSubmatch(l); m != nil {
+			v, _ := strconv.ParseInt(m[1], 10, 64)
+			rs[i] = rg{v, v, false}
+			if v > maxHi {
+				maxHi = v
+			}
+		} else if rePlus.MatchString(l) {
+			rs[i] = rg{0, 0, true}
+		} else {
+			fail("%s: label %q is neither n, a-b nor n+", fn, l)
+			return nil
+		}
+	}
+	var parts []string
+	for i, l := range labels {
+		if rs[i].inf {
+			m := rePlus.FindStringSubmatch(l)
+			n, _ := strconv.ParseInt(m[1], 10, 64)
+			if n != maxHi && n != maxHi+1 {
+				fail("%s: open label %q does not continue the explicit ranges (largest upper bound %d)", fn, l, maxHi)
+				return nil
+			}
+			parts = append(parts, fmt.Sprintf("((%d)%%Z, None)", maxHi+1))
+		} else {
+			parts = append(parts, fmt.Sprintf("((%d)%%Z, Some (%d)%%Z)", rs[i].lo, rs[i].hi))
+		}
+	}
+	fmt.Fprintf(b, "Definition report_%s_ranges : list (Z * option Z) := [%s].\n\n", name, strings.Join(parts, "; "))
+	recordDigest(p, file, recv, fn)
+	return labels
+}
+
+// emitRiskEval: is_low / is_medium read by probing the risk function; plus its decision table.
+func (r *reportEval) emitRiskEval(p *pkgInfo, file, recv, fn, name string, call func(fd *ast.FuncDecl, low, medium, x int64) (Value, error)) {
+	fd := findFunc(p, file, recv, fn)
+	if fd == nil {
+		fail("%s/%s:%s.%s: function not found", p.dir, file, recv, fn)
+		return
+	}
+	code := map[string]int64{}
+	for i, n := range []string{"RiskLevelLow", "RiskLevelMedium", "RiskLevelHigh"} {
+		c, _ := r.dom.pkg.Scope().Lookup(n).(*types.Const)
+		if c == nil {
+			fail("%s: constant domain.%s not found", fn, n)
+			return
+		}
+		v, _ := constToValue(c.Val(), c.Type())
+		s, _ := v.(string)
+		code[s] = int64(i)
+	}
+	risk := func(low, medium, x int64) (int64, error) {
+		s, err := asString(call(fd, low, medium, x))
+		if err != nil {
+			return 0, err
+		}
+		c, ok := code[s]
+		if !ok {
+			return 3, nil
+		}
+		return c, nil
+	}
+	if op, ok := probe3(fn+": value against LowThreshold", func(rel int64) (bool, error) {
+		c, err := risk(5, 9, 5+rel)
+		return c == 0, err
+	}); ok {
+		sc, _ := coqCmp(op)
+		fmt.Fprintf(r.b, "Definition report_%s_is_low (a b : Z) : bool := %s.  (* %s: value %s LowThreshold -> low *)\n", name, sc, fn, op)
+	}
+	if op, ok := probe3(fn+": value against MediumThreshold", func(rel int64) (bool, error) {
+		c, err := risk(2, 9, 9+rel)
+		return c == 1, err
+	}); ok {
+		sc, _ := coqCmp(op)
+		fmt.Fprintf(r.b, "Definition report_%s_is_medium (a b : Z) : bool := %s.  (* %s: value %s MediumThreshold -> medium *)\n", name, sc, fn, op)
+	}
+	var rows []string
+	for _, t := range [][2]int64{{5, 9}, {3, 7}, {9, 5}, {4, 4}, {0, 0}} {
+		seen := map[int64]bool{}
+		for _, base := range []int64{t[0], t[1], 0} {
+			for d := int64(-1); d <= 1; d++ {
+				x := base + d
+				if seen[x] {
+					continue
+				}
+				seen[x] = true
+				c, err := risk(t[0], t[1], x)
+				if err != nil {
+					fail("%s: cannot be evaluated: %v", fn, err)
+					return
+				}
+				rows = append(rows, fmt.Sprintf("(((%s, %s), %s), %s)", coqZint(t[0]), coqZint(t[1]), coqZint(x), coqZint(c)))
+			}
+		}
+	}
+	emitTable(r.tb, "risk_"+name+"_table", "((Z * Z) * Z) * Z", rows)
+	recordDigest(p, file, recv, fn)
+}
+
 func init() {
 	generators = append(generators, func() {
 		svc := loadPkg("service")
 		an := loadPkg("internal/analyzer")
-		var b strings.Builder
+		dom := loadPkg("domain")
+		if svc == nil || an == nil || dom == nil {
+			fail("gen_report: packages not loadable")
+			return
+		}
+		var b, tb strings.Builder
 		b.WriteString("Open Scope Q_scope.\nOpen Scope Z_scope.\n\n")
+		tb.WriteString("Open Scope Q_scope.\nOpen Scope Z_scope.\n\n")
+		r := &reportEval{in: newInterp(svc, an, dom), b: &b, tb: &tb, svc: svc, an: an, dom: dom}
 		labels := map[string][]string{}
-		labels["complexity"] = emitBuckets(&b, svc, "complexity_service.go", "ComplexityServiceImpl", "getComplexityDistributionKey", "cx")
-		labels["cbo"] = emitBuckets(&b, svc, "cbo_service.go", "CBOServiceImpl", "getCBORange", "cbo")
-		labels["lcom"] = emitBuckets(&b, svc, "lcom_service.go", "LCOMServiceImpl", "getLCOMRange", "lcom")
+		labels["complexity"] = r.emitBucketsEval(svc, "complexity_service.go", "ComplexityServiceImpl", "getComplexityDistributionKey", "cx")
+		labels["cbo"] = r.emitBucketsEval(svc, "cbo_service.go", "CBOServiceImpl", "getCBORange", "cbo")
+		labels["lcom"] = r.emitBucketsEval(svc, "lcom_service.go", "LCOMServiceImpl", "getLCOMRange", "lcom")
 
-		b.WriteString("(* risk levels: value <op> LowThreshold -> low; value <op> MediumThreshold -> medium; else high *)\n")
-		emitRisk(&b, svc, "complexity_service.go", "ComplexityServiceImpl", "calculateRiskLevel", "cx")
-		emitRisk(&b, an, "cbo.go", "CBOAnalyzer", "assessRiskLevel", "cbo")
-		emitRisk(&b, an, "lcom.go", "LCOMAnalyzer", "assessRiskLevel", "lcom")
+		b.WriteString("(* risk levels: value <op> LowThreshold -> low; value <op> MediumThreshold -> medium; else high (read by evaluation) *)\n")
+		r.emitRiskEval(svc, "complexity_service.go", "ComplexityServiceImpl", "calculateRiskLevel", "cx", func(fd *ast.FuncDecl, low, medium, x int64) (Value, error) {
+			return r.in.call1(svc, fd, mkStruct("ComplexityServiceImpl"), x, mkStruct("ComplexityRequest", "LowThreshold", low, "MediumThreshold", medium))
+		})
+		for _, it := range [][4]string{{"cbo.go", "CBOAnalyzer", "CBOOptions", "cbo"}, {"lcom.go", "LCOMAnalyzer", "LCOMOptions", "lcom"}} {
+			it := it
+			r.emitRiskEval(an, it[0], it[1], "assessRiskLevel", it[3], func(fd *ast.FuncDecl, low, medium, x int64) (Value, error) {
+				return r.in.call1(an, fd, mkStruct(it[1], "options", mkStruct(it[2], "LowThreshold", low, "MediumThreshold", medium)), x)
+			})
+		}
 
-		b.WriteString("\n(* filters: an item is dropped when the comparison holds *)\n")
-		emitCmp(&b, svc, "complexity_service.go", "ComplexityServiceImpl", "filterFunctions", "Metrics.Complexity", "req.MinComplexity", "report_cx_drop_below", false)
-		emitCmp(&b, svc, "cbo_service.go", "CBOServiceImpl", "filterClasses", "Metrics.CouplingCount", "req.MinCBO", "report_cbo_drop_below", false)
-		emitCmp(&b, svc, "cbo_service.go", "CBOServiceImpl", "filterClasses", "Metrics.CouplingCount", "req.MaxCBO", "report_cbo_drop_above", false)
-		emitCmp(&b, svc, "cbo_service.go", "CBOServiceImpl", "filterClasses", "req.MaxCBO", "0", "report_cbo_max_given", false)
-		emitCmp(&b, svc, "cbo_service.go", "CBOServiceImpl", "filterClasses", "Metrics.CouplingCount", "0", "report_cbo_is_zero", false)
-		emitCmp(&b, svc, "lcom_service.go", "LCOMServiceImpl", "filterClasses", "Metrics.LCOM4", "req.MinLCOM", "report_lcom_drop_below", false)
-		emitCmp(&b, svc, "lcom_service.go", "LCOMServiceImpl", "filterClasses", "Metrics.LCOM4", "req.MaxLCOM", "report_lcom_drop_above", false)
-		emitCmp(&b, svc, "lcom_service.go", "LCOMServiceImpl", "filterClasses", "req.MaxLCOM", "0", "report_lcom_max_given", false)
-		emitCmp(&b, svc, "clone_service.go", "CloneService", "filterClonePairs", "pair.Similarity", "req.MinSimilarity", "report_pair_drop_below", true)
-		emitCmp(&b, svc, "clone_service.go", "CloneService", "filterClonePairs", "pair.Similarity", "req.MaxSimilarity", "report_pair_drop_above", true)
-		emitCmp(&b, svc, "clone_service.go", "CloneService", "filterCloneGroups", "group.Similarity", "req.MinSimilarity", "report_group_drop_below", true)
-		emitCmp(&b, svc, "clone_service.go", "CloneService", "filterCloneGroups", "group.Similarity", "req.MaxSimilarity", "report_group_drop_above", true)
+		b.WriteString("\n(* filters: an item is dropped when the comparison holds (read by evaluation) *)\n")
+		emitOp := func(name, comment string, op token.Token, q bool) {
+			if q {
+				sc, ok := coqCmpQ(op)
+				if !ok {
+					fail("%s: unsupported float comparison %s", name, op)
+					return
+				}
+				fmt.Fprintf(&b, "Definition %s (a b : Q) : bool := %s.  (* %s: a %s b *)\n", name, sc, comment, op)
+				return
+			}
+			sc, _ := coqCmp(op)
+			fmt.Fprintf(&b, "Definition %s (a b : Z) : bool := %s.  (* %s: a %s b *)\n", name, sc, comment, op)
+		}
+
+		// ---- complexity: filterFunctions(functions, req) -----------------------------------------------
+		if fd := findFunc(svc, "complexity_service.go", "ComplexityServiceImpl", "filterFunctions"); fd == nil {
+			fail("service/complexity_service.go: filterFunctions not found")
+		} else {
+			item := func(cx int64) Value {
+				return mkStruct("FunctionComplexity", "Name", "f", "Metrics", mkStruct("ComplexityMetrics", "Complexity", cx))
+			}
+			val := func(v Value) Value { return v.(*Struct).F["Metrics"].(*Struct).F["Complexity"] }
+			kept := func(min int64, cxs []int64) ([]Value, error) {
+				var items []Value
+				for _, c := range cxs {
+					items = append(items, item(c))
+				}
+				return r.keptValues(svc, fd, "ComplexityServiceImpl", items, mkStruct("ComplexityRequest", "MinComplexity", min, "MaxComplexity", int64(0)), val)
+			}
+			if op, ok := probe3("filterFunctions: complexity against MinComplexity", func(rel int64) (bool, error) {
+				k, err := kept(5, []int64{5 + rel})
+				return len(k) == 0, err
+			}); ok {
+				emitOp("report_cx_drop_below", "filterFunctions, complexity against req.MinComplexity", op, false)
+			}
+			var rows []string
+			for _, min := range []int64{0, 1, 2, 5, 9} {
+				cxs := []int64{1, 2, 4, 5, 6, 1, 9, 8, 10, 30}
+				k, err := kept(min, cxs)
+				if err != nil {
+					fail("filterFunctions: cannot be evaluated: %v", err)
+					break
+				}
+				var in []Value
+				for _, c := range cxs {
+					in = append(in, c)
+				}
+				rows = append(rows, fmt.Sprintf("((%s, %s), %s)", coqZint(min), zList(in), zList(k)))
+			}
+			emitTable(&tb, "filterFunctions_table", "(Z * list Z) * list Z", rows)
+		}
+
+		// ---- CBO / LCOM: filterClasses(classes, req) ------------------------------------------------------
+		type classSite struct {
+			file, recv, itemT, metricsT, field, reqT, minF, maxF, name string
+			zeros                                                      bool
+		}
+		for _, cs := range []classSite{
+			{"cbo_service.go", "CBOServiceImpl", "ClassCoupling", "CBOMetrics", "CouplingCount", "CBORequest", "MinCBO", "MaxCBO", "cbo", true},
+			{"lcom_service.go", "LCOMServiceImpl", "ClassCohesion", "LCOMMetrics", "LCOM4", "LCOMRequest", "MinLCOM", "MaxLCOM", "lcom", false},
+		} {
+			cs := cs
+			fd := findFunc(svc, cs.file, cs.recv, "filterClasses")
+			if fd == nil {
+				fail("service/%s: filterClasses not found", cs.file)
+				continue
+			}
+			val := func(v Value) Value { return v.(*Struct).F["Metrics"].(*Struct).F[cs.field] }
+			kept := func(min, max int64, zeros bool, vs []int64) ([]Value, error) {
+				var items []Value
+				for _, c := range vs {
+					items = append(items, mkStruct(cs.itemT, "Name", "C", "Metrics", mkStruct(cs.metricsT, cs.field, c)))
+				}
+				req := mkStruct(cs.reqT, cs.minF, min, cs.maxF, max)
+				if cs.zeros {
+					if zeros {
+						req.F["ShowZeros"] = true // *bool pointing at true
+					} else {
+						req.F["ShowZeros"] = nil
+					}
+				}
+				return r.keptValues(svc, fd, cs.recv, items, req, val)
+			}
+			dropped := func(min, max int64, zeros bool, v int64) (bool, error) {
+				k, err := kept(min, max, zeros, []int64{v})
+				return len(k) == 0, err
+			}
+			what := "service/" + cs.file + " filterClasses"
+			if op, ok := probe3(what+": value against the minimum", func(rel int64) (bool, error) { return dropped(5, 0, true, 5+rel) }); ok {
+				emitOp("report_"+cs.name+"_drop_below", what+", "+cs.field+" against req."+cs.minF, op, false)
+			}
+			if op, ok := probe3(what+": value against the maximum", func(rel int64) (bool, error) { return dropped(0, 5, true, 5+rel) }); ok {
+				emitOp("report_"+cs.name+"_drop_above", what+", "+cs.field+" against req."+cs.maxF, op, false)
+			}
+			if op, ok := probe3(what+": maximum against 0", func(rel int64) (bool, error) { return dropped(0, rel, true, 7) }); ok {
+				emitOp("report_"+cs.name+"_max_given", what+", req."+cs.maxF+" against 0", op, false)
+			}
+			if cs.zeros {
+				if op, ok := probe3(what+": value against 0 (ShowZeros unset)", func(rel int64) (bool, error) { return dropped(-5, 0, false, rel) }); ok {
+					emitOp("report_"+cs.name+"_is_zero", what+", "+cs.field+" against 0", op, false)
+				}
+			}
+			var rows []string
+			vs := []int64{0, 1, 2, 3, 4, 5, 6, 0, 7, 9, 10, 11, 40}
+			var in []Value
+			for _, c := range vs {
+				in = append(in, c)
+			}
+			for _, mm := range [][2]int64{{0, 0}, {1, 0}, {3, 0}, {0, 5}, {2, 9}, {5, 5}, {6, 3}, {0, -1}, {0, 1}} {
+				for _, zeros := range []bool{false, true} {
+					if !cs.zeros && zeros {
+						continue
+					}
+					k, err := kept(mm[0], mm[1], zeros, vs)
+					if err != nil {
+						fail("%s: cannot be evaluated: %v", what, err)
+						break
+					}
+					if cs.zeros {
+						rows = append(rows, fmt.Sprintf("((((%s, %s), %s), %s), %s)", coqZint(mm[0]), coqZint(mm[1]), coqBool(zeros), zList(in), zList(k)))
+					} else {
+						rows = append(rows, fmt.Sprintf("(((%s, %s), %s), %s)", coqZint(mm[0]), coqZint(mm[1]), zList(in), zList(k)))
+					}
+				}
+			}
+			if cs.zeros {
+				emitTable(&tb, "filterClasses_"+cs.name+"_table", "(((Z * Z) * bool) * list Z) * list Z", rows)
+			} else {
+				emitTable(&tb, "filterClasses_"+cs.name+"_table", "((Z * Z) * list Z) * list Z", rows)
+			}
+		}
+
+		// ---- clones: filterClonePairs / filterCloneGroups(items, req) ---------------------------------------
+		for _, cs := range [][3]string{{"filterClonePairs", "ClonePair", "pair"}, {"filterCloneGroups", "CloneGroup", "group"}} {
+			cs := cs
+			fd := findFunc(svc, "clone_service.go", "CloneService", cs[0])
+			if fd == nil {
+				fail("service/clone_service.go: %s not found", cs[0])
+				continue
+			}
+			type it struct{ sim, typ int64 } // similarity in 1/100
+			kept := func(lo, hi int64, types []int64, items []it) ([]int64, error) {
+				var xs []Value
+				for i, x := range items {
+					xs = append(xs, mkStruct(cs[1], "ID", int64(i), "Similarity", float64(x.sim)/100, "Type", x.typ))
+				}
+				ts := &Slice{}
+				for _, t := range types {
+					ts.E = append(ts.E, t)
+				}
+				req := mkStruct("CloneRequest", "MinSimilarity", float64(lo)/100, "MaxSimilarity", float64(hi)/100, "CloneTypes", ts)
+				ks, err := r.keptValues(svc, fd, "CloneService", xs, req, func(v Value) Value { return v.(*Struct).F["ID"] })
+				var out []int64
+				for _, k := range ks {
+					n, _ := k.(int64)
+					out = append(out, n)
+				}
+				return out, err
+			}
+			if op, ok := probe3(cs[0]+": similarity against MinSimilarity", func(rel int64) (bool, error) {
+				k, err := kept(50, 100, []int64{1}, []it{{50 + rel, 1}})
+				return len(k) == 0, err
+			}); ok {
+				emitOp("report_"+cs[2]+"_drop_below", cs[0]+", similarity against req.MinSimilarity", op, true)
+			}
+			if op, ok := probe3(cs[0]+": similarity against MaxSimilarity", func(rel int64) (bool, error) {
+				k, err := kept(0, 50, []int64{1}, []it{{50 + rel, 1}})
+				return len(k) == 0, err
+			}); ok {
+				emitOp("report_"+cs[2]+"_drop_above", cs[0]+", similarity against req.MaxSimilarity", op, true)
+			}
+			items := []it{{49, 1}, {50, 1}, {51, 2}, {80, 3}, {79, 4}, {81, 1}, {100, 1}, {100, 4}, {0, 2}, {65, 5}, {66, 0}}
+			var rows []string
+			for _, cfg := range []struct {
+				lo, hi int64
+				types  []int64
+			}{{50, 100, []int64{1, 2, 3, 4}}, {50, 80, []int64{1, 2}}, {0, 100, []int64{}}, {80, 50, []int64{1, 2, 3, 4}}, {66, 100, []int64{4, 1, 5}}, {0, 100, []int64{3, 3}}} {
+				k, err := kept(cfg.lo, cfg.hi, cfg.types, items)
+				if err != nil {
+					fail("%s: cannot be evaluated: %v", cs[0], err)
+					break
+				}
+				var its, ts, ks []string
+				for _, x := range items {
+					its = append(its, fmt.Sprintf("(%s, %s)", coqQfrac(x.sim, 100), coqZint(x.typ)))
+				}
+				for _, t := range cfg.types {
+					ts = append(ts, coqZint(t))
+				}
+				for _, i := range k {
+					ks = append(ks, fmt.Sprintf("(%s, %s)", coqQfrac(items[i].sim, 100), coqZint(items[i].typ)))
+				}
+				rows = append(rows, fmt.Sprintf("((((%s, %s), [%s]), [%s]), [%s])", coqQfrac(cfg.lo, 100), coqQfrac(cfg.hi, 100), strings.Join(ts, "; "), strings.Join(its, "; "), strings.Join(ks, "; ")))
+			}
+			emitTable(&tb, cs[0]+"_table", "(((Q * Q) * list Z) * list (Q * Z)) * list (Q * Z)", rows)
+		}
 
 		b.WriteString("\n(* top-N lists *)\n")
 		if v, ok := topN(svc, "cbo_service.go", "CBOServiceImpl", "generateSummary", "maxTopClasses"); ok {
@@ -388,6 +799,7 @@ func init() {
 			fail("lcom generateSummary: maxTopClasses := <int> not found")
 		}
 		writeGen("ReportConst.v", b.String())
+		writeGen("ReportTables.v", tb.String())
 		_ = labels
 
 		for _, f := range [][3]string{
@@ -405,7 +817,6 @@ func init() {
 		} {
 			recordDigest(svc, f[0], f[1], f[2])
 		}
-		dom := loadPkg("domain")
 		recordDigest(dom, "dead_code.go", "FunctionDeadCode", "CalculateSeverityCounts")
 		recordDigest(dom, "dead_code.go", "FunctionDeadCode", "HasFindingsAtSeverity")
 		recordDigest(dom, "dead_code.go", "DeadCodeSeverity", "IsAtLeast")
